@@ -549,6 +549,20 @@ def run_alphabet(lib, vfs, part, tag, xml, idx):
 
 
 SPECIALS = [
+    # classes that carry no override of their own still have to be written when something refers to them
+    ("empty nested default class referenced by class=",
+     '<mujoco><default><geom size="0.03"/><default class="vis"><geom rgba="1 0 0 1" contype="0"/><default class="vis_empty"/></default>'
+     '<default class="col"/></default><worldbody><body name="b" childclass="col"><joint/><geom name="g0"/>'
+     '<geom name="g1" class="vis_empty" pos="0 0 0.1"/><geom name="g2" class="vis" pos="0 0 0.2"/></body></worldbody></mujoco>'),
+    ("nested default class that only repeats inherited values, referenced by childclass=",
+     '<mujoco><default><geom size="0.03"/><joint damping="0.2"/><default class="a"><geom rgba="0 1 0 1" size="0.04"/>'
+     '<default class="a_same"><geom rgba="0 1 0 1" size="0.04"/><joint damping="0.2"/></default></default></default>'
+     '<worldbody><body name="b" childclass="a_same"><joint name="j"/><geom name="g0"/><body name="c" pos="0 0 0.2" childclass="a">'
+     '<joint name="k" class="a_same"/><geom name="g1"/></body></body></worldbody></mujoco>'),
+    ("empty top-level class and empty leaf below a non-empty class, used by sites, joints and an actuator",
+     '<mujoco><default><default class="e0"/><default class="n1"><site size="0.02"/><general gainprm="3"/><default class="e1"/></default></default>'
+     '<worldbody><body name="b"><joint name="j" class="e0"/><geom size="0.05"/><site name="s0" class="e1"/><site name="s1" class="e0"/>'
+     '</body></worldbody><actuator><general name="u" joint="j" class="e1"/></actuator></mujoco>'),
     ("inline mesh whose vertices need 9 significant digits",
      '<mujoco><asset><mesh name="me" vertex="%s"/></asset><worldbody><body><freejoint/><geom type="mesh" mesh="me"/></body></worldbody></mujoco>' % MESHV9),
     ("frame placed before a direct sibling of the same kind",
